@@ -49,11 +49,15 @@ def forced_inputs(rng):
     # (e) many links, every RDH faulty twice (stop bit 2: [E10] + [E11] at one offset), interleaved
     n = 8
     pk = b"".join(_hdr(l, 0, 2, 64)[:38] + b"\x02" + _hdr(l, 0, 2, 64)[39:] for _r in range(6) for l in range(n))
-    res.append(("twelve-faulty-links", _hdr(0, 0, 2, 64) + pk, [["check", "all"], ["check", "all", "its-stave"]], False))
+    # the third mode: a check together with a filter and `-o stdout` (the data output is ignored, the report is skipped): the statistics
+    # file must still be finalised -- sorted -- before it is written (seed C05-K)
+    res.append(("twelve-faulty-links", _hdr(0, 0, 2, 64) + pk, [["check", "all"], ["check", "all", "its-stave"],
+                                                                ["check", "all", "-F", str(0x502A), "-o", "stdout"]], False))
     # (f) ONE link id, six FEE ids (stave mode: six validators), every RDH faulty
     fees = [0x0001, 0x1005, 0x2007, 0x3002, 0x4003, 0x5004]
     pk1 = b"".join(_hdr(3, 0, 2, 64, fee=f)[:38] + b"\x02" + _hdr(3, 0, 2, 64, fee=f)[39:] for _r in range(6) for f in fees)
-    res.append(("one-link-six-staves", _hdr(3, 0, 2, 64, fee=fees[0]) + pk1, [["check", "all", "its-stave"], ["check", "all", "its-stave", "-m"]], False))
+    res.append(("one-link-six-staves", _hdr(3, 0, 2, 64, fee=fees[0]) + pk1, [["check", "all", "its-stave"], ["check", "all", "its-stave", "-m"],
+                                                                        ["check", "all", "its-stave", "-f", "3", "-o", "stdout", "-m"]], False))
     return res
 
 
